@@ -13,6 +13,49 @@ def subst_free(t):
         all(subst_free(x) for _, x in t.get('d', []))
 
 
+def same_notation_eqlists(rng, vals, n):
+    """both sides apply the SAME notation definition: partial applications (an open metavariable of the definition is
+    matched like any other), arguments the definition ignores, arguments in other holes, with and without seeds"""
+    N, M = funcs.NOT_DEFS, pi2v.MV
+    out = []
+    for _ in range(n):
+        a, b, c, d = (rng.choice(vals) for _ in range(4))
+        dfn = rng.choice([N['and'](a, b)['p'], N['or'](a, b)['p'], N['neg'](a)['p'], N['equiv'](a, b)['p']])
+        shapes = [([(0, M(0)), (1, M(1))], [(0, a), (1, b)]),                     # full / full
+                  ([(0, M(2))], [(0, a)]),                                         # partial / partial: metavar 1 stays open on both sides
+                  ([(0, M(2))], [(0, a), (1, b)]),                                 # partial / full
+                  ([(0, M(0)), (1, M(1)), (5, c)], [(0, a), (1, b), (5, d)]),      # key 5 does not occur in the definition
+                  ([(0, M(0)), (1, M(1))], [(1, b), (0, a)]),                      # other key order
+                  ([(1, M(0)), (0, M(1))], [(0, a), (1, b)]),
+                  ([], [(0, a)]), ([(0, a)], [])]
+        for pd, qd in shapes:
+            P_, Q_ = pi2v.NINST(dfn, pd), pi2v.NINST(dfn, qd)
+            out.append(([[P_, Q_]], []))
+            out.append(([[P_, Q_]], [[1, b]]))
+            out.append(([[P_, Q_]], [[1, M(1)]]))
+            out.append(([[P_, Q_]], [[2, a]]))
+            out.append(([[pi2v.IMP(P_, M(1)), pi2v.IMP(Q_, b)]], []))
+    return out
+
+
+def match_cases(eqlists, rng):
+    """run match / match_single on the real implementation; cases of family "match" for Trace_PyOps"""
+    cmds = []
+    for eqs, seed in eqlists:
+        if len(eqs) == 1 and (seed or rng.random() < 0.7):
+            cmds.append({'fn': 'match_single', 'p': eqs[0][0], 'q': eqs[0][1], 'seed': seed if seed else None})
+        else:
+            cmds.append({'fn': 'match', 'eqs': eqs})
+    res = py_run(cmds)
+    cases = []
+    for (eqs, seed), c, r in zip(eqlists, cmds, res):
+        if c['fn'] == 'match':
+            seed = []
+        cases.append({'fam': 'match', 'api': c['fn'], 'eqs': eqs, 'seed': seed, 'out': 'ok' if r['out'] == 'ok' else 'raise',
+                      'found': r['res'] is not None, 'sigma': r['res'] or []})
+    return cases
+
+
 def run(v, tier):
     quick = tier == 'quick'
     rng = random.Random(pi2v.SEED)
@@ -49,41 +92,8 @@ def run(v, tier):
         eqlists.append(([[M(0), pi2v.EV(0)], [g, g]], []))
         eqlists.append(([[g, g], [g, g]], []))
     eqlists.append(([], []))
-    # both sides apply the SAME notation definition: partial applications (an open metavariable of the definition is
-    # matched like any other), arguments the definition ignores, arguments in other holes, with and without seeds
-    for _ in range(200 if quick else 2500):
-        a, b, c, d = (rng.choice(vals) for _ in range(4))
-        dfn = rng.choice([N['and'](a, b)['p'], N['or'](a, b)['p'], N['neg'](a)['p'], N['equiv'](a, b)['p']])
-        shapes = [([(0, M(0)), (1, M(1))], [(0, a), (1, b)]),                     # full / full
-                  ([(0, M(2))], [(0, a)]),                                         # partial / partial: metavar 1 stays open on both sides
-                  ([(0, M(2))], [(0, a), (1, b)]),                                 # partial / full
-                  ([(0, M(0)), (1, M(1)), (5, c)], [(0, a), (1, b), (5, d)]),      # key 5 does not occur in the definition
-                  ([(0, M(0)), (1, M(1))], [(1, b), (0, a)]),                      # other key order
-                  ([(1, M(0)), (0, M(1))], [(0, a), (1, b)]),
-                  ([], [(0, a)]), ([(0, a)], [])]
-        for pd, qd in shapes:
-            P_, Q_ = pi2v.NINST(dfn, pd), pi2v.NINST(dfn, qd)
-            eqlists.append(([[P_, Q_]], []))
-            eqlists.append(([[P_, Q_]], [[1, b]]))
-            eqlists.append(([[P_, Q_]], [[1, M(1)]]))
-            eqlists.append(([[P_, Q_]], [[2, a]]))
-            eqlists.append(([[pi2v.IMP(P_, M(1)), pi2v.IMP(Q_, b)]], []))
-    for _ in range(300 if quick else 4000):        # multi-equation lists with shared metavariables
-        a, b = rng.choice(vals), rng.choice(vals)
-        eqlists.append(([[pi2v.IMP(M(0), M(1)), pi2v.IMP(a, b)], [M(0), rng.choice((a, b))]], []))
-    cmds = []
-    for eqs, seed in eqlists:
-        if len(eqs) == 1 and (seed or rng.random() < 0.7):
-            cmds.append({'fn': 'match_single', 'p': eqs[0][0], 'q': eqs[0][1], 'seed': seed if seed else None})
-        else:
-            cmds.append({'fn': 'match', 'eqs': eqs})
-    res = py_run(cmds)
-    cases = []
-    for (eqs, seed), c, r in zip(eqlists, cmds, res):
-        if c['fn'] == 'match':
-            seed = []
-        cases.append({'fam': 'match', 'api': c['fn'], 'eqs': eqs, 'seed': seed, 'out': 'ok' if r['out'] == 'ok' else 'raise',
-                      'found': r['res'] is not None, 'sigma': r['res'] or []})
+    eqlists += same_notation_eqlists(rng, vals, 200 if quick else 2500)
+    cases = match_cases(eqlists, rng)
     v.sample({k: cases[0][k] for k in ('api', 'eqs', 'seed', 'found', 'sigma')})
     # notation round trips over every shipped notation
     nots = py_run([{'fn': 'notations'}])[0]['res']
